@@ -9,11 +9,12 @@ import (
 
 // Trace is the observed history of one case in the vocabulary of Server/Model.v.
 type Trace struct {
-	Labels  []string // Coq terms (label, option json)
-	Names   []string // short names, for histograms and replay files
-	Out     []string // mk_obs terms
-	Log     []string // LgSub / LgUnsub terms
-	Streams map[int][]interface{}
+	Labels   []string // Coq terms (label, option json)
+	Names    []string // short names, for histograms and replay files
+	Out      []string // mk_obs terms
+	Log      []string // LgSub / LgUnsub terms
+	Streams  map[int][]interface{}
+	Released []string // resources whose Cleanup ran, once per call
 }
 
 func coqStr(s string) string { return vh.CoqString(s) }
@@ -165,6 +166,7 @@ func BuildTrace(res *Result) *Trace {
 	}
 	var cur *Op
 	done := true
+	broken := false
 	lastReadErr := ""
 	cts := map[int]closeTask{}
 	for _, ct := range closeTasks(res.Events) {
@@ -249,6 +251,30 @@ func BuildTrace(res *Result) *Trace {
 			if r := v.runs[e.Run]; r != nil && !r.Written {
 				emitRun(r)
 			}
+		case "register":
+			gen := e.Gen
+			if gen < 0 {
+				gen = 999
+			}
+			emit(fmt.Sprintf("LRegister %d %d", gen, e.Res), "register", "")
+		case "cleanup":
+			t.Released = append(t.Released, fmt.Sprint(e.Res))
+		case "writefail":
+			// the socket refuses the envelope: same label as a write, the model (after LBreak) loses it too
+			if !broken {
+				broken = true
+				emit("LBreak", "write-fails", "")
+			}
+			if e.Run >= 0 {
+				if r := v.runs[e.Run]; r != nil {
+					emitRun(r)
+				}
+			} else {
+				emitMsg()
+				if typ, _ := e.Env["type"].(string); typ != "echo" {
+					emit("LFlush", "reply", "")
+				}
+			}
 		case "write":
 			id, _ := e.Env["id"].(string)
 			typ, _ := e.Env["type"].(string)
@@ -298,8 +324,8 @@ func (t *Trace) CaseTerm(max int, clients map[int]interface{}, gens []int) strin
 		ids = append(ids, fmt.Sprint(i))
 	}
 	ids = append(ids, "99")
-	return fmt.Sprintf("mk_case (repaired %d)\n  %s\n  %s\n  %s\n  %s\n  %s\n  []",
-		max, vh.CoqList(t.Labels), vh.CoqList(t.Out), vh.CoqList(t.Log), vh.CoqList(ids), vh.CoqList(cl))
+	return fmt.Sprintf("mk_case (repaired %d)\n  %s\n  %s\n  %s\n  %s\n  %s\n  []\n  %s",
+		max, vh.CoqList(t.Labels), vh.CoqList(t.Out), vh.CoqList(t.Log), vh.CoqList(ids), vh.CoqList(cl), vh.CoqList(t.Released))
 }
 
 func (t *Trace) Summary() string { return strings.Join(t.Names, " ") }
